@@ -507,6 +507,19 @@ func (w *world) msgStep(step int, op []int, o *stepObs, out *caseOut) {
 			w.v(step, "auth-without-proof", "connection %d became authenticated as client #%d without a proof (message %v, gated=%v)", k, who, op, gated)
 		}
 	}
+	if isMsg && op[6] == 1 {
+		// a handshake with connection_type "tunnel" never makes any connection a control channel
+		for i := 1; i < len(preIdx); i++ {
+			if postIdx[i] != preIdx[i] && postIdx[i] != 0 {
+				w.v(step, "tunnel-handshake-installed-control-channel", "client #%d control connection %d -> %d by a tunnel-type handshake on %d", i, preIdx[i], postIdx[i], k)
+			}
+		}
+		for i := len(preIdx); i < len(postIdx); i++ {
+			if postIdx[i] != 0 {
+				w.v(step, "tunnel-handshake-installed-control-channel", "new client #%d got control connection %d by a tunnel-type handshake", i, postIdx[i])
+			}
+		}
+	}
 	if proofFor == 0 {
 		// a message that proves nothing: nobody's identity changes, nobody loses or gains a control channel.
 		// One specific shape is recorded separately (key nonsuccess-reinstall): the acting connection, which had
@@ -724,7 +737,6 @@ func gen() {
 	fmt.Printf("Definition PermanentBanAt : N := %d.\n", d.PermanentBanAt)
 	fmt.Printf("Definition T_Handshake : N := %d.\n", byte(packet.Handshake))
 	fmt.Printf("Definition T_HandshakeResp : N := %d.\n", byte(packet.HandshakeResp))
-	genTable()
 }
 
 func main() {
